@@ -108,7 +108,7 @@ func H_C10(nc, ns, nr, recov, enc, entry int) {
 		_, ok := verifDecodeBody(rec.chunks, ce)
 		verifAssert(ok, "C10: the response body after a recovered panic is not complete/decodable")
 		verifAssert(ce == "" || len(rec.out()["Content-Length"]) == 0, "C10: a Content-Length was announced for a response that is encoded on the way out")
-		verifAssert(verifLocksFree(), "C10: a lock is still held after the request")
+		verifAssert(vContainerLocksFree(c), "C10: a lock is still held after the request")
 		verifAssert(led.clean(), "C10: a compressor was lost, released twice or used after release (C13)")
 		return
 	}
@@ -159,7 +159,7 @@ func H_C10(nc, ns, nr, recov, enc, entry int) {
 		verifCover("not-raised")
 	}
 	// afterwards the container serves the next request as it would have otherwise
-	verifAssert(verifLocksFree(), "C10: a lock is still held after the request")
+	verifAssert(vContainerLocksFree(c), "C10: a lock is still held after the request")
 	verifAssert(led.clean(), "C10: a compressor was lost, released twice or used after release (C13)")
 	k.panicAt = -1
 	for _, f := range k.filts {
